@@ -303,6 +303,28 @@ class Repo:
             self._all_functions = out
         return self._all_functions
 
+    def all_calls(self) -> List[Tuple[FuncInfo, ast.Call]]:
+        """Every call expression of every (non-nested-duplicated) function body, computed once."""
+        if getattr(self, "_all_calls", None) is None:
+            out: List[Tuple[FuncInfo, ast.Call]] = []
+            for fn in self.all_functions().values():
+                for n in walk_no_nested(fn.node):
+                    if isinstance(n, ast.Call):
+                        out.append((fn, n))
+            self._all_calls = out
+        return self._all_calls  # type: ignore
+
+    def instantiated_classes(self) -> set:
+        if getattr(self, "_instantiated", None) is None:
+            inst = set()
+            for fn, call in self.all_calls():
+                if isinstance(call.func, (ast.Name, ast.Attribute)):
+                    r = self.resolve_expr(fn.module, call.func, fn.cls)
+                    if isinstance(r, ClassInfo):
+                        inst.add(r.qualname)
+            self._instantiated = inst
+        return self._instantiated  # type: ignore
+
     # ---- anchors -------------------------------------------------------------------------------------------
     def module(self, name: str) -> Module:
         full = name if name.startswith("pydsdl") else "pydsdl." + name
